@@ -22,14 +22,14 @@ EXTENDS StickyLifeCore
 
 CONSTANTS MaxReq, Scripts
 
-VARIABLES live, view, draining, n, nextId, last, tainted
-vars == <<live, view, draining, n, nextId, last, tainted>>
+VARIABLES live, view, draining, n, nextId, last, tainted, exited
+vars == <<live, view, draining, n, nextId, last, tainted, exited>>
 
-Init == /\ live = {} /\ view = 0 /\ draining = FALSE /\ n = 0 /\ nextId = 1 /\ tainted = FALSE
+Init == /\ live = {} /\ view = 0 /\ draining = FALSE /\ n = 0 /\ nextId = 1 /\ tainted = FALSE /\ exited = FALSE
         /\ last = [script |-> <<>>, via |-> "none", out |-> "none", opened |-> 0, accept |-> FALSE, drain |-> FALSE, bound |-> 0]
 
 Req(script, via) ==
-  /\ n < MaxReq
+  /\ n < MaxReq /\ ~exited /\ UNCHANGED exited
   /\ LET accept == via = "view"
          tok == IF via \in {"view", "tokenonly"} THEN view ELSE 0
          lost == tok # 0 /\ tok \notin live          \* a token whose session is gone: session_lost, nothing runs
@@ -41,15 +41,22 @@ Req(script, via) ==
                     drain |-> draining, bound |-> IF lost THEN 0 ELSE tok]
         /\ tainted' = (tainted \/ (via = "tokenonly" /\ st.l # live))
   /\ n' = n + 1 /\ UNCHANGED draining
-Drain == /\ draining' = ~draining /\ n < MaxReq /\ UNCHANGED <<live, view, n, nextId, last, tainted>>
-Next == (\E s \in Scripts, via \in {"view", "plain", "tokenonly"} : Req(s, via)) \/ Drain
+Drain == /\ draining' = ~draining /\ n < MaxReq /\ ~exited /\ UNCHANGED <<live, view, n, nextId, last, tainted, exited>>
+\* the client leaves the with_session_token() block: best-effort DELETE of the session the view still tracks
+Exit == /\ ~exited /\ exited' = TRUE
+        /\ live' = IF view # 0 THEN live \ {view} ELSE live
+        /\ view' = 0
+        /\ last' = [script |-> <<>>, via |-> "exit", out |-> "none", opened |-> 0, accept |-> FALSE, drain |-> draining, bound |-> 0]
+        /\ UNCHANGED <<draining, n, nextId, tainted>>
+Next == (\E s \in Scripts, via \in {"view", "plain", "tokenonly"} : Req(s, via)) \/ Drain \/ Exit
 Spec == Init /\ [][Next]_vars
 
 \* ------------------------------------------------------------------ property clauses
-ViewExact == tainted \/ live = (IF view = 0 THEN {} ELSE {view})          \* exactly the live session; nothing orphaned
+ViewExact == tainted \/ exited \/ live = (IF view = 0 THEN {} ELSE {view})          \* exactly the live session; nothing orphaned
 OpenOnlyWithOptIn == last.opened > 0 => last.accept
 NeverOpenWhileDraining == last.opened > 0 => ~last.drain
 DrainErrorIsTyped == (last.out = "server_draining") => last.drain
+NothingOrphanedAtExit == (exited /\ ~tainted) => live = {}
 ExistingServeDuringDrain == (last.drain /\ last.bound # 0 /\ last.script = <<"u">>) => last.out = "ok"
 
 =========================================================================================
